@@ -953,14 +953,15 @@ func (m *Manager) recoverFromWAL() error {
 
 	// Add recovered memtables to the pool
 	for i, memTable := range memTables {
-		if i == len(memTables)-1 {
-			// The last memtable becomes the active one
-			m.memTablePool.SetActiveMemTable(memTable)
-		} else {
-			// Previous memtables become immutable
+		if i < len(memTables)-1 {
+			// Previous memtables become immutable and are tracked for flushing
 			memTable.SetImmutable()
 			m.immutableMTs = append(m.immutableMTs, memTable)
 		}
+		// Hand every table to the pool in order so that all of them are
+		// readable: the pool moves the previous active table to its immutables
+		// and the last memtable ends up as the active one
+		m.memTablePool.SetActiveMemTable(memTable)
 	}
 
 	// Record recovery stats
